@@ -289,6 +289,9 @@ def slot_templates():
     t["agg_distinct_filter"] = (2, lambda h: ["call", ["call", ["fn", "Count", [["add", A_, h[0]]]], "distinct", []], "filter", [["gt", B_, h[1]]]])
     t["window"] = (3, lambda h: ["call", ["call", ["an", "Sum", [["add", A_, h[0]]]], "over", [["add", B_, h[1]]]], "orderby", [["sub", B_, h[2]]]])
     t["window_filter"] = (4, lambda h: ["call", ["call", ["call", ["an", "Sum", [["add", A_, h[0]]]], "filter", [["gt", B_, h[1]]]], "over", [["add", B_, h[2]]]], "orderby", [["sub", B_, h[3]]]])
+    t["array_values"] = (2, lambda h: ["array", [h[0][1], h[1][1]]])
+    t["array_mixed"] = (2, lambda h: ["array", [["add", A_, h[0]], h[1][1]]])
+    t["array_column"] = (1, lambda h: ["array", [A_, h[0][1]]])
     t["tuple_in"] = (4, lambda h: ["in", ["tuple", [["add", A_, h[0]], h[1]]], [["tuple", [h[2], h[3]]]]])
     t["not"] = (2, lambda h: ["not", ["eq", ["add", A_, h[0]], h[1]]])
     t["neg"] = (2, lambda h: ["gt", ["neg", ["add", A_, h[0]]], h[1]])
@@ -338,6 +341,8 @@ def slot_cases():
             if name.startswith(("agg_", "window")) and clause in ("where", "join_on", "set_value", "insert_value"):
                 continue  # aggregates / window functions do not stand there
             if name.startswith("window") and clause == "having":
+                continue
+            if name.startswith("array") and clause not in ("select", "insert_value", "set_value"):
                 continue
             for cls in CTXS:
                 yield {"family": "slots", "name": name, "clause": clause, "cls": cls}
